@@ -24,6 +24,26 @@ CLAIMS = {
    text="Lean 4 theorems over the executable model of the backend request server: the REPLY_ACK flag equals (PROTOCOL_FEATURES offered and REPLY_ACK acknowledged) after every history (invariant), every acknowledgement is written iff that flag and NEED_REPLY hold and is 0 iff the handler succeeded, every reply header carries the request's code, version 1|REPLY without NEED_REPLY and the payload size. The byte-exact reaction to every well-formed request (exactly one reply / one ack / nothing, consumed exactly header+size) is compared with Spec.Proto.owed and with the model on exhaustive single-request scenarios after each negotiation prefix and on random histories.",
    note="`reply_as_owed` for all 34 arms is decided by the spec driver on observed replies (sampled), not yet by a theorem.",
    technique="Lean 4 proof (state invariant, reply shape) over a hand-written executable model + differential correspondence", ref="DESIGN.md §7 C04"),
+ "C02": dict(
+   text="Lean 4 theorems over the executable model of the frontend endpoint (Model.Frontend: local checks, request construction, reply readers): every call the API refuses locally (queue index beyond the maximum or beyond the 8-bit index field, empty/oversized region list, zero-sized region, invalid config window, un-negotiated feature) writes nothing and leaves the state unchanged; request headers carry version 1, no reserved bit, NEED_REPLY exactly when requested; wire = header ++ body. The composition Frontend -> wire -> BackendReqHandler -> handler (exactly one invocation, equal arguments and payload, same open files by fstat identity) is compared on every operation of the API with lattice arguments against the Spec and the model.",
+   note="`call_reaches_handler` (composition) is decided by the spec driver on observed sessions (sampled), not yet by a theorem; adapters (Mutex/RwLock/Arc) are exercised through BackendReqHandler<Mutex<..>> only.",
+   technique="Lean 4 proof over a hand-written executable model + differential correspondence (real frontend vs real server)", ref="DESIGN.md §7 C02"),
+ "C03": dict(
+   text="Lean 4 theorems over Model.Frontend: set-operations read nothing unless REPLY_ACK is acknowledged and NEED_REPLY requested; an awaited acknowledgement yields success only for value 0; once the connection is closed no reply reader ever waits (for every stream, segmentation and request kind), including the repaired GET_CONFIG reader which reads exactly the payload the reply header declares. Per operation, the value returned for every handler success and the error returned in bounded time for every handler failure / unusable result are compared with the Spec on sessions against the real request server (which closes the connection on a failed request, as the daemon does), with a watchdog for calls that do not return.",
+   note="`success_roundtrip` per operation is decided by the spec driver on observed sessions (sampled). Assumes the serve loop closes the connection on a request error.",
+   technique="Lean 4 proof (never-blocks / ack semantics) over a hand-written executable model + differential correspondence with watchdog", ref="DESIGN.md §7 C03"),
+ "C06": dict(
+   text="Lean 4 theorem `recv_ok_is_reply_for`: for every stream, segmentation, request and state, each of the frontend's reply readers accepts bytes only if they carry the REPLY flag and the request's own code with a valid header and body, and descriptors exactly as the reply type allows (none / required / optional); `recvBody_ok_sound` pins the accepted header and body. The model is compared with the real Frontend on replies mutated in one field (code, each flag bit, version, size, body byte, 0..3 descriptors, truncation, tail) and on random strings; success may be returned only for a conforming reply and must equal the decoded value.",
+   note="Proxy and GPU-proxy readers and the frontend's request server (besrv) are covered once C18's families are merged; the size field of fixed-size replies is a recorded limit.",
+   technique="Lean 4 proof (soundness of acceptance) over a hand-written executable model + mutation-based differential correspondence", ref="DESIGN.md §7 C06"),
+ "C08": dict(
+   text="Lean 4 theorems quantified over every chooser (kernel segmentation and arrival timing) resp. every script of partial writes: the receive loop returns exactly the requested bytes in order whenever they are present (recvAll_complete, recvData_complete), hence `server_step_segmentation_independent`: one handle_request produces the same handler calls, reply, state and remaining stream for all segmentations of a complete message (header and body); truncation inside header or body with the peer closed is an error without dispatch, `Disconnected` only at a message boundary, and nothing blocks after close; the send loop emits a prefix of the message, the whole message exactly once when it reports success, and descriptors only with the first chunk; get_sub_iovs_offset returns the position of byte `skip`. Correspondence: every request type in all 2-splits / sampled 3-splits / byte-by-byte / random segmentations, queued or arriving one segment at a time, every cut offset followed by close; send loop on a pre-filled minimum-size non-blocking socket.",
+   note="The kernel's AF_UNIX rule is modelled (Model/Stream.kernelChooser) and validated by the correspondence; theorems hold for all choosers, a superset.",
+   technique="Lean 4 proof by induction over the receive/send loops for all segmentations + differential correspondence over splits and cuts", ref="DESIGN.md §7 C08"),
+ "C10": dict(
+   text="Lean 4 theorems over the lock transition system of N callers sharing one endpoint (acquire/send/recv/release per method, FIFO peer tagging replies): for every configuration and every schedule, a request whose reply is outstanding implies its sender holds the lock (invariant), no foreign send is enabled meanwhile, the history is atomic, every caller consumes its own reply, no deadlock and a strictly decreasing measure (all calls complete); a broken variant (guard dropped between send and receive) is proved non-atomic. Correspondence: all interleavings of 2 (3 in thorough) concurrent calls on clones of Frontend / Backend proxy / GpuBackend at the instrumented hold points against a scripted tagging peer, plus per-method 8-thread stress.",
+   note="One guard per method is taken from reading the 51 I/O methods (table in Model/Locks.lean) and tied by the hold-point runs; split-guard mutants are caught by the stress runs (probabilistic), double-lock mutants deterministically.",
+   technique="Lean 4 proof (LTS invariant + progress measure) + schedule-controlled correspondence at hold points", ref="DESIGN.md §7 C10"),
 }
 
 def chk(pid, c):
